@@ -112,7 +112,7 @@ class Corpus:
                 self.run.cov["descriptions_not_compiling"] = len(self.compile_failures)
                 return True
             log = self.harness.build_log
-            bad = sorted(set(int(m) for m in re.findall(r"src/gen/d(\d+)\.rs", log)), reverse=True)
+            bad = sorted(set(int(m) for m in re.findall(r"src/gen/d(\d+)\.rs:\d+:\d+: error", log)), reverse=True)
             if not bad:
                 self.run.violation("corr", "harness build failed outside generated code: %s" % log[-1500:],
                                    {"stage": "harness-build", "log_tail": log[-3000:]}, found_input=False)
